@@ -14,16 +14,17 @@
 (*   probe    one item of every reference kind (several variants each),    *)
 (*            placed in the last class (module rows: in module-info)       *)
 (*   extras   instead of a probe: directories, resources, a multi-release  *)
-(*            entry, an entry whose name is not that of its class          *)
+(*            entry, a package-info class (renamed with its package),      *)
+(*            an entry whose name is not that of its class                 *)
 (* Laws are INVARIANTs of the drawn case; every case is emitted as a       *)
 (* vector {M, lib, jar, exp} for replay through dukebox::remap::remap.     *)
 (***************************************************************************)
 EXTENDS JarRemap, Json
 
 CONSTANT Tier        \* 0 = quick, 1 = thorough
-VARIABLES phase, shape, cm, mm, ident, probe, extras,
+VARIABLES phase, shape, cm, mm, ident, probe, extras, via,
           ms, X, jseq, J       \* derived once per case: mapping set, remapper context, the jar as a sequence and as a function
-vars == <<phase, shape, cm, mm, ident, probe, extras, ms, X, jseq, J>>
+vars == <<phase, shape, cm, mm, ident, probe, extras, via, ms, X, jseq, J>>
 
 OBJ == "java/lang/Object"
 A == "p/A"
@@ -32,6 +33,7 @@ I == "p/A$I"
 C == "q/C"
 L == "x/L"
 T == "x/T"
+PI == "p/package-info"           \* the class javac emits for an annotated package-info.java: renamed with its package
 
 Cls(this, super, itfs, fields, methods) == [this |-> this, super |-> super, itfs |-> itfs, fields |-> fields, methods |-> methods, items |-> <<>>]
 ClsA == Cls(A, OBJ, <<>>, <<<<"f", "I">>, <<"g", "Lp/A;">>>>, <<<<"m", "()V">>, <<"h", "(Lp/A;)Lp/B;">>>>)
@@ -41,6 +43,7 @@ ClsI == Cls(I, OBJ, <<T>>, <<>>, <<<<"v", "()I">>, <<"t", "()V">>>>)
 ClsC == Cls(C, L, <<T>>, <<>>, <<<<"t", "()V">>>>)                         \* L and T are outside the jar
 ClsC2 == Cls(C, B, <<>>, <<>>, <<<<"m", "()V">>>>)
 ModInfo == Cls("module-info", "", <<>>, <<>>, <<>>)
+ClsPI == Cls(PI, OBJ, <<>>, <<>>, <<>>)
 
 LibLT == (L :> <<T>>) @@ (T :> <<>>)
 Shapes == <<[cs |-> <<ClsA>>, lib |-> <<>>],
@@ -56,13 +59,13 @@ ShapeIdx == IF Tier = 0 THEN 1..5 ELSE 1..Len(Shapes)
 ClassMaps == <<
     <<>>,
     (A :> "p/X"),
-    (A :> "r/X") @@ (B :> "r/Y"),
+    (A :> "r/X") @@ (B :> "r/Y") @@ (PI :> "r/package-info"),
     (A :> "r/X") @@ (I :> "r/X$J"),
     (I :> "p/A$J"),
     (I :> "s/Flat"),
     (B :> "p/Y") @@ (C :> "q/Z") @@ (T :> "y/T2"),
     (A :> "p/B"),                                   \* onto a name the jar may hold
-    (A :> "r/X") @@ (B :> "r/Y") @@ (I :> "r/X$J") @@ (C :> "r/Z") @@ (L :> "y/L2") @@ (T :> "y/T2") >>
+    (A :> "r/X") @@ (B :> "r/Y") @@ (I :> "r/X$J") @@ (C :> "r/Z") @@ (L :> "y/L2") @@ (T :> "y/T2") @@ (PI :> "r/package-info") >>
 (* thorough tier: every combination of a choice for A, for B and for the inner class *)
 ClassMapSet ==
     {ClassMaps[i] : i \in DOMAIN ClassMaps}
@@ -79,12 +82,33 @@ MemberMaps == <<{}, MA, MA \cup MB, MT, MA \cup MB \cup MT \cup MI>>
 
 (* the mapping set: a class node for every renamed class and every class with member renames; a class *)
 (* without rename gets its own name as target (ident) or no target name (then its members are ignored) *)
-NodeClasses(cm0, mm0) == {c \in {A, B, I, C, L, T} : c \in DOMAIN cm0 \/ \E e \in MemberMaps[mm0] : e[1] = c}
+NodeClasses(cm0, mm0) == {c \in {A, B, I, C, L, T, PI} : c \in DOMAIN cm0 \/ \E e \in MemberMaps[mm0] : e[1] = c}
 TargetOf(cm0, id0, c) == IF c \in DOMAIN cm0 THEN cm0[c] ELSE IF id0 THEN c ELSE ""
 MemberNode(e) == IF e[2] = "f" THEN Field(<<e[3], e[5]>>, e[4], <<>>) ELSE Method(<<e[3], e[5]>>, e[4], <<>>, <<>>)
 MapSetOf(cm0, mm0, id0) ==
     Root(<<"a", "b">>, <<>>,
          MapOf({Class(<<c, TargetOf(cm0, id0, c)>>, <<>>, MapOf({MemberNode(e) : e \in {e \in MemberMaps[mm0] : e[1] = c}})) : c \in NodeClasses(cm0, mm0)}))
+
+(* "via": the same renames stated by a mapping set over THREE namespaces <<k, a, b>> whose first (key) namespace is  *)
+(* neither the jar's nor the target's: classes and members are keyed by their k names, member descriptors are written  *)
+(* with k names (as quill stores them: always in the first namespace), and the jar is remapped from a (2) to b (3).    *)
+(* This is how the build uses it (official / intermediary / named, intermediary -> named).  The law: read from 2 to 3, *)
+(* the three-namespace set gives the same remapper context as the two-namespace set, hence the same expectation.       *)
+KN(c) == c \o "_k"
+KTable(cm0, mm0) == [c \in NodeClasses(cm0, mm0) |-> KN(c)]
+KDesc(cm0, mm0, d) == LET r == MapDesc(KTable(cm0, mm0), d) IN IF r.ok THEN r.v ELSE d
+MemberNode3(cm0, mm0, e) ==
+    IF e[2] = "f" THEN Field(<<e[3] \o "_k", e[3], e[5]>>, KDesc(cm0, mm0, e[4]), <<>>)
+    ELSE Method(<<e[3] \o "_k", e[3], e[5]>>, KDesc(cm0, mm0, e[4]), <<>>, <<>>)
+MapSet3Of(cm0, mm0, id0) ==
+    Root(<<"k", "a", "b">>, <<>>,
+         MapOf({Class(<<KN(c), c, TargetOf(cm0, id0, c)>>, <<>>,
+                      MapOf({MemberNode3(cm0, mm0, e) : e \in {e \in MemberMaps[mm0] : e[1] = c}})) : c \in NodeClasses(cm0, mm0)}))
+Ctx3(M, sup) == CtxFT(M, 2, 3, sup)
+(* drawn for the cases in which it matters: members renamed whose descriptors mention renamed classes *)
+(* (every class of the set has a target name: a class that has none keeps its k name inside target descriptors, which  *)
+(* the two-namespace statement cannot say)                                                                             *)
+ViaChoices(sh, cm0, mm0, id0) == IF id0 /\ mm0 \in {2, 5} /\ sh \in {2, 4, 5} /\ cm0 # <<>> THEN BOOLEAN ELSE {FALSE}
 
 ---------------------------------------------------------------------------
 (* probes *)
@@ -161,7 +185,7 @@ Probes == <<
     P("field_decl", "none", It("none")),
     P("method_decl", "none", It("none")) >>
 
-ExtrasSet == {"none", "dir-other", "versioned", "mismatch"}
+ExtrasSet == {"none", "dir-other", "versioned", "mismatch", "pkginfo"}
 
 ---------------------------------------------------------------------------
 (* the classes of the jar, the probe placed *)
@@ -179,6 +203,7 @@ JarSeqOf(sh, pr, ex) ==
                                       [n |-> "p/A.txt", k |-> "other", d |-> "p/A p.A Lp/A;"], [n |-> "META-INF/", k |-> "dir"]>>
              [] ex = "versioned" -> <<ClassEntry("META-INF/versions/9/" \o Cs[1].this \o ".class", Cs[1]),
                                       ClassEntry("META-INF/versions/11/module-info.class", ModInfo)>>
+             [] ex = "pkginfo" -> <<ClassEntry(PI \o ".class", ClsPI), ClassEntry("META-INF/versions/9/" \o PI \o ".class", ClsPI)>>
              [] ex = "mismatch" -> <<ClassEntry("junk/Name.class", Cs[1]), ClassEntry("META-INF/versions/x/" \o Cs[1].this \o ".class", Cs[1])>>
              [] OTHER -> <<>>)
 
@@ -194,20 +219,21 @@ SupOf(sh) ==
 AbsEntry(e) == IF e.k = "class" THEN [k |-> "class", this |-> e.c.this, rows |-> Refs(e.c), res |-> e.n] ELSE IF e.k = "other" THEN [k |-> "other", id |-> e.d] ELSE [k |-> "dir"]
 AbsJar(js) == [n \in {js[i].n : i \in DOMAIN js} |-> AbsEntry(js[CHOOSE i \in DOMAIN js : js[i].n = n])]
 
-Init == phase = "start" /\ shape = 0 /\ cm = <<>> /\ mm = 0 /\ ident = FALSE /\ probe = 0 /\ extras = "none"
+Init == phase = "start" /\ shape = 0 /\ cm = <<>> /\ mm = 0 /\ ident = FALSE /\ probe = 0 /\ extras = "none" /\ via = FALSE
         /\ ms = <<>> /\ X = <<>> /\ jseq = <<>> /\ J = <<>>
-PickShape == phase = "start" /\ \E s \in ShapeIdx : shape' = s /\ phase' = "shape" /\ UNCHANGED <<cm, mm, ident, probe, extras, ms, X, jseq, J>>
-PickCM == phase = "shape" /\ \E c \in ClassMapSet : cm' = c /\ phase' = "cm" /\ UNCHANGED <<shape, mm, ident, probe, extras, ms, X, jseq, J>>
+PickShape == phase = "start" /\ \E s \in ShapeIdx : shape' = s /\ phase' = "shape" /\ UNCHANGED <<cm, mm, ident, probe, extras, via, ms, X, jseq, J>>
+PickCM == phase = "shape" /\ \E c \in ClassMapSet : cm' = c /\ phase' = "cm" /\ UNCHANGED <<shape, mm, ident, probe, extras, via, ms, X, jseq, J>>
 PickMM == /\ phase = "cm"
           /\ \E m \in DOMAIN MemberMaps, id \in BOOLEAN :
-                /\ mm' = m /\ ident' = id
-                /\ ms' = MapSetOf(cm, m, id)
+              \E w \in ViaChoices(shape, cm, m, id) :
+                /\ mm' = m /\ ident' = id /\ via' = w
+                /\ ms' = IF w THEN MapSet3Of(cm, m, id) ELSE MapSetOf(cm, m, id)
                 /\ X' = Ctx(MapSetOf(cm, m, id), SupOf(shape))
           /\ phase' = "mm" /\ UNCHANGED <<shape, cm, probe, extras, jseq, J>>
 Draw(p, x) == /\ probe' = p /\ extras' = x
               /\ jseq' = JarSeqOf(shape, Probes[p], x)
               /\ J' = AbsJar(JarSeqOf(shape, Probes[p], x))
-              /\ phase' = "case" /\ UNCHANGED <<shape, cm, mm, ident, ms, X>>
+              /\ phase' = "case" /\ UNCHANGED <<shape, cm, mm, ident, via, ms, X>>
 PickProbe == phase = "mm" /\ \E p \in DOMAIN Probes : Draw(p, "none")
 PickExtras == phase = "mm" /\ \E x \in ExtrasSet \ {"none"} : Draw(Len(Probes), x)
 Next == PickShape \/ PickCM \/ PickMM \/ PickProbe \/ PickExtras
@@ -226,6 +252,8 @@ RowOf(q) == J[q[1]].rows[q[2]][q[3]]
 
 ---------------------------------------------------------------------------
 (* Laws *)
+(* the three-namespace statement of the renames, read from its second to its third namespace, is the same remapper *)
+InvVia == (phase \in {"mm", "case"} /\ via) => Ctx3(ms, X.sup) = X /\ ms # MapSetOf(cm, mm, ident)
 (* the traversal, every position handled as the law demands, IS the law: row by row *)
 InvTraversal == IsCase => \A n \in ClassNames :
                     LET rows == J[n].rows
@@ -286,9 +314,10 @@ Exp == IF Collides(X, J) THEN [anyof |-> <<[ok |-> TRUE], [ok |-> FALSE]>>]
             [ok |-> TRUE,
              out |-> [names |-> [n \in DOMAIN R |-> R[n].k],
                       classes |-> [n \in {n \in DOMAIN R : R[n].k = "class"} |-> ExpClass(J[CHOOSE m \in DOMAIN J : OutName(X, m, J[m]) = n])]]]
-Label == IF extras # "none" THEN "extras/" \o extras ELSE "probe/" \o Pr.kind
+Label == IF extras # "none" THEN "extras/" \o extras ELSE (IF via THEN "via/" ELSE "probe/") \o Pr.kind
 Emit == IsCase => PrintT(ToJson([op |-> "remap", cls |-> Label, collides |-> Collides(X, J), M |-> MapSet, lib |-> Shapes[shape].lib,
-                                 tag |-> [shape |-> shape, cm |-> cm, mm |-> mm, ident |-> ident, probe |-> probe],
+                                 tag |-> [shape |-> shape, cm |-> cm, mm |-> mm, ident |-> ident, probe |-> probe, via |-> via],
+                                 from |-> IF via THEN 2 ELSE 1, to |-> IF via THEN 3 ELSE 2,
                                  pairs |-> [i \in DOMAIN JarSeq |-> LET n == JarSeq[i].n IN
                                               <<n, IF Collides(X, J) THEN "" ELSE OutName(X, n, J[n]),
                                                 IF J[n].k = "class" THEN EntryShape(n, J[n].this) ELSE "">>],
